@@ -34,7 +34,7 @@ def jobs(tier):
                           defines=["TD=0", "TE=1", "FAM=4", "LENGTHS_CHECKED", "TL_SHAPE=1", "TL_NRECS=1"] + (["REC_V6"] if v6 else []), unwind=9, ndebug=ndebug,
                           unwindset={"trie_insert": 4, "trie_remove": 4, "trie_lookup.0": 5, "trie_lookup_exact.0": 5,
                                      "pfx_table_del_elem.0": 3},
-                          timeout=1800, mem_gb=16, memory_checks=True, object_bits=12, sources=TRIE_SOURCES,
+                          timeout=3600 if v6 else 1800, mem_gb=30 if v6 else 16, weight=4 if v6 else 1, memory_checks=True, object_bits=12, sources=TRIE_SOURCES,
                           desc="record as copied from a prefix PDU (lengths as rtr_update_pfx_table lets them through, host bits / "
                                "AS / max-length arbitrary) added to or removed from the real trie (pre-state: one IPv4 node with one "
                                "record + arbitrary 0/1-node IPv6 trie, all values symbolic) + arbitrary validate; all CBMC memory-safety and undefined-shift checks on"
